@@ -339,10 +339,168 @@ def check_run(res, ctx=None, draws=12):
     return findings
 
 
+# ------------------------------------------------------------------ one engine, many positions
+
+def plan_sessions(ctx):
+    """An engine object is asked for moves on several positions during its lifetime.  `mixed`:
+    unrelated positions (different games, sizes, reserve configurations).  `hop`: two games that
+    were played with the same moves but under different reserve configurations; the engine is asked
+    alternately about one and the other as they advance by its own move and a reply — where possible a
+    reply the engine has already looked at during its last search (observed through the evaluator
+    wrapper), as an opponent playing an expected move would — so consecutive requests are two plies
+    apart and look alike on the board."""
+    rng = ctx.rng
+    out = []
+    n_mixed, n_hop = (10, 50) if ctx.thorough else (3, 12)
+    for _ in range(n_mixed):
+        reqs = []
+        for _ in range(rng.randrange(3, 6)):
+            size = rng.choice([3, 3, 4, 5])
+            reqs.append(ser.pos_str(rng.choice(td.start_positions(rng, size, 3, custom_prob=0.5))))
+        out.append({"kind": "mixed", "requests": reqs, "evaluator": rng.choice(["uniform", "random"]), "eseed": rng.randrange(1 << 30),
+                    "budget": rng.choice([5, 20, 50]), "C": rng.choice([4, 1.5]), "sseed": rng.randrange(1 << 30), "cutoff": 1e-6})
+    for _ in range(n_hop):
+        size = rng.choice([3, 3, 3, 4])
+        std_caps = {3: 0, 4: 0, 5: 1}[size]
+        # the same moves played under two reserve configurations: generous against meagre, or many
+        # flats and no capstone against few flats and capstones (each allows moves the other does not)
+        if rng.random() < 0.4:
+            a = {"size": size, "pieces": rng.choice([None, 12, 20]), "capstones": rng.choice([1, 2, 2])}
+            b = {"size": size, "pieces": rng.choice([3, 4, 5, None]), "capstones": rng.choice([0, 0, 0, 1])}
+        else:
+            a = {"size": size, "pieces": rng.choice([None, 12]), "capstones": 0}
+            b = {"size": size, "pieces": rng.choice([2, 3, 3, 4]), "capstones": rng.choice([1, 2])}
+            if rng.random() < 0.5:
+                a, b = b, a
+        out.append({"kind": "hop", "configs": [a, b], "opening": rng.choice([2, 3, 4, 5, 6, 8]), "steps": rng.randrange(3, 6),
+                    "evaluator": rng.choice(["uniform", "uniform", "random"]), "eseed": rng.randrange(1 << 30),
+                    "budget": rng.choice([40, 100, 200] if size == 3 else [60, 150]), "C": rng.choice([4, 1.5]),
+                    "sseed": rng.randrange(1 << 30), "cutoff": 1e-6})
+    return out
+
+
+def run_session(sess, ctx=None):
+    """returns findings; every returned move is judged by the driver (`move rules`)"""
+    import random
+
+    import tak
+    import torch
+    from tak import mcts
+
+    findings = []
+    rng = random.Random(sess["sseed"])
+    torch.manual_seed(sess["sseed"])
+    case = {"evaluator": sess["evaluator"], "eseed": sess["eseed"], "cutoff": sess["cutoff"]}
+    rec = td.Recorder(td.make_evaluator(case), "torch", sess["sseed"])
+    rec.capture_solver = False
+    rec.seen_texts = set()
+    engine = mcts.MCTS(mcts.Config(time_limit=0, simulation_limit=sess["budget"], C=sess["C"], cutoff_prob=sess["cutoff"]), rec)
+    asked = []  # (pos text, move or exception text)
+
+    def ask(pos):
+        before = ser.pos_str(pos)
+        try:
+            m = engine.get_move(pos)
+        except Exception as e:
+            asked.append((before, None, "%s: %s" % (type(e).__name__, str(e)[:120])))
+            return None
+        asked.append((before, m, None))
+        if ser.pos_str(pos) != before:
+            findings.append(Finding("illegal-move-returned", "get_move changed the position it was asked about: [%s] -> [%s]" % (before, ser.pos_str(pos))))
+        return m
+
+    with rec:
+        if sess["kind"] == "mixed":
+            for ps in sess["requests"]:
+                ask(ser.parse_pos(ps.split(" ")))
+        else:
+            cfgs = [tak.Config(size=c["size"], pieces=c["pieces"], capstones=c["capstones"]) for c in sess["configs"]]
+
+            def both(history):
+                ps = [td.replay_history(c, history) for c in cfgs]
+                if any(p is None or p.winner()[1] is not None or not td.legal_ids(p) for p in ps):
+                    return None
+                return ps
+
+            def common_moves(ps):
+                out = []
+                for m in ps[0].all_moves():
+                    try:
+                        for p in ps:
+                            p.move(m)
+                    except tak.IllegalMove:
+                        continue
+                    out.append(m)
+                return out
+
+            history = []
+            ok = True
+            for _ in range(sess["opening"]):
+                ps = both(history)
+                cm = common_moves(ps) if ps else []
+                if not cm:
+                    ok = False
+                    break
+                history.append(rng.choice(cm))
+            for step in range(sess["steps"] if ok else 0):
+                ps = both(history)
+                if ps is None:
+                    break
+                m = ask(ps[step % 2])
+                cm = common_moves(ps)
+                if not cm:
+                    break
+                history.append(m if m in cm else rng.choice(cm))
+                ps = both(history)
+                cm = common_moves(ps) if ps else []
+                if not cm:
+                    break
+                asked_pos = ps[step % 2]
+                expected = [r for r in cm if ser.pos_str(asked_pos.move(r)) in rec.seen_texts]
+                history.append(rng.choice(expected) if expected and rng.random() < 0.85 else rng.choice(cm))
+                rec.seen_texts = set()
+    lines, idx = [], []
+    for k, (ps, m, err) in enumerate(asked):
+        if ctx is not None:
+            ctx.evaluated()
+            ctx.count("session-request:" + sess["kind"])
+        if err is not None:
+            findings.append(Finding("illegal-move-returned", "request %d of the session: get_move raised %s on [%s]" % (k, err, ps)))
+            continue
+        try:
+            lines.append("move rules %s %s" % (ps, ser.move_str(m)))
+            idx.append(k)
+        except Exception:
+            findings.append(Finding("illegal-move-returned", "request %d of the session: get_move returned %r on [%s]" % (k, m, ps)))
+    for k, o in zip(idx, driver.run_lines(lines) if lines else []):
+        if not o.startswith("legal "):
+            ps, m, _ = asked[k]
+            findings.append(
+                Finding(
+                    "illegal-move-returned",
+                    "request %d of %d on ONE engine object: get_move returned %s, which the rules do not allow in [%s] (driver: %s); earlier requests: %s"
+                    % (k, len(asked), ser.move_str(m), ps, o, [a[0] for a in asked[:k]]),
+                )
+            )
+    return findings
+
+
+def session_label(sess):
+    d = {k: v for k, v in sess.items() if k != "requests"}
+    return "session " + json.dumps(d, sort_keys=True)
+
+
 def tie(ctx):
     td.single_thread()
     divs = []
     store = []
+    sess_store = []
+    for sess in plan_sessions(ctx):
+        ctx.count("session:" + sess["kind"])
+        for f in run_session(sess, ctx):
+            sess_store.append((sess, f))
+            divs.append(Divergence("corr.tree+solver", {"session": sess}, f.what, "ok"))
+    tie.sess_store = sess_store
     for case in c08.plan(ctx, scale=0.8):
         ctx.count("evaluator:" + case["evaluator"])
         ctx.count("size:%d" % case["size"])
@@ -388,6 +546,19 @@ def search(ctx, divergences, broken):
                 case, f = c, g[0]
                 break
         vs.append(Violation(key, "%s — %s (%d such findings in this run)" % (f.what, c08.case_label(case), len(lst)), {"case": case, "key": key, **f.extra}))
+    sess_store = getattr(tie, "sess_store", [])
+    if sess_store:
+        sess_store.sort(key=lambda sf: (sf[0].get("steps", len(sf[0].get("requests", []))), sf[0]["budget"]))
+        sess, f = sess_store[0]
+        # fewer steps / smaller budget while the session still returns an illegal move
+        for cand in [dict(sess, steps=2), dict(sess, steps=2, budget=max(20, sess["budget"] // 2))] if sess["kind"] == "hop" else []:
+            try:
+                g = run_session(cand)
+            except Exception:
+                continue
+            if g:
+                sess, f = cand, g[0]
+        vs.append(Violation("illegal-move-returned", "%s — %s (%d such findings in this run)" % (f.what, session_label(sess), len(sess_store)), {"session": sess, "key": "illegal-move-returned"}))
     if broken and not vs:
         for case in c08.plan(ctx, scale=0.4):
             for f in check_run(td.run_case(case), ctx):
@@ -404,6 +575,9 @@ def replay(ctx, data):
         case = r["case"]
         for f in check_run(td.run_case(case), ctx):
             out.append(Violation(f.key, "%s — %s" % (f.what, c08.case_label(case)), r))
+    elif "session" in r:
+        for f in run_session(r["session"], ctx):
+            out.append(Violation(f.key, "%s — %s" % (f.what, session_label(r["session"])), r))
     elif "solver_call" in r:
         # a bare solver input (the regime in which the native solver returns inf): replayed directly
         import tak_ext
